@@ -237,6 +237,9 @@ pub struct SourceSpec {
     pub bad_fd: Option<BadFd>,
     /// inserted disabled-from-birth? (insert then disable at once)
     pub ready_at_insert: bool,
+    /// the callback closure owns an Async adapter of the same loop (dropped with the callback)
+    #[serde(default)]
+    pub owns_adapter: bool,
 }
 
 #[derive(Clone, Copy, Debug, PartialEq, Eq, Serialize, Deserialize, Hash)]
